@@ -41,6 +41,9 @@ class C01(core.Check):
         rng = random.Random(self.seed * 104729 + 5)
         for _ in range(self.budget(40, 800, boost)):
             sess = engcorr.gen_session(rng, max_n=120, tight=rng.random() < 0.4, vol=rng.choice([4, 8]))
+            if rng.random() < 0.35:
+                sess['warmup'] = 720        # half a day of injected warm-up candles (a multiple of every timeframe used)
+                res.count('pairs-with-warm-up')
             cands = engcorr.candles_of(sess)
             n = sess['n']
             tfs = [engcorr.TFM[tf] for (_, tf) in sess['routes'] + sess['droutes']]
@@ -50,7 +53,7 @@ class C01(core.Check):
             cut = rng.randrange(1, max(2, n // unit)) * unit
             cut = min(max(cut, unit), n - 1)
             ev1, ev2, tr1, tr2 = engoracles.c01_compare(sess, cands, cut, rng)
-            t_cut = int(cands[sess['syms'][0]][0][0]) + cut * M
+            t_cut = int(cands[sess['syms'][0]][0][0]) + (cut + sess.get('warmup', 0)) * M
             a = engoracles.events_before(tr1, ev1, t_cut)
             b = engoracles.events_before(tr2, ev2, t_cut)
             fills = sum(1 for x in a if x.startswith('FILL'))
@@ -61,7 +64,8 @@ class C01(core.Check):
                 k = next((i for i, (x, y) in enumerate(zip(a, b)) if x != y), min(len(a), len(b)))
                 res.fail(**{'class': 'look-ahead/' + ('fast' if sess['fast'] else 'step'),
                             'input': {'session': {kk: sess[kk] for kk in ('kind', 'fee', 'leverage', 'isolated', 'fast', 'routes',
-                                                                         'droutes', 'n', 'scripts', 'candle_seed')}, 'cut': cut},
+                                                                         'droutes', 'n', 'scripts', 'candle_seed')}, 'cut': cut,
+                                      'warmup_rows': sess.get('warmup', 0)},
                             'observed': {'event_index': k, 'run_a': a[k] if k < len(a) else '<end>', 'run_b': b[k] if k < len(b) else '<end>',
                                          'context': a[max(0, k - 3):k]},
                             'expected': 'identical prefixes', 'params': {'simulator': 'fast' if sess['fast'] else 'step'}})
